@@ -88,7 +88,7 @@ SLICE_FILES = [
     "v5/codec/packet/pubacks.rs", "v5/codec/packet/publish.rs",
     "v5/codec/packet/subscribe.rs",
     "payload.rs", "v5/shared.rs", "v3/shared.rs", "io.rs", "v5/dispatcher.rs",
-    "v3/sink.rs", "v5/sink.rs", "v3/handshake.rs", "v5/handshake.rs", "v5/client/dispatcher.rs",
+    "v3/sink.rs", "v5/sink.rs", "v3/handshake.rs", "v5/handshake.rs", "v5/client/dispatcher.rs", "v3/dispatcher.rs",
 ]
 
 
@@ -359,6 +359,21 @@ def gen_v5_client_pubgate(stage):
             "publish admission block": hashlib.sha256(block.encode()).hexdigest()}
 
 
+def gen_sized(stage):
+    """`impl crate::inflight::SizedRequest for Decoded` of both server dispatchers, verbatim"""
+    out = "// GENERATED by lib/weave.py: the two `impl SizedRequest for Decoded` blocks, extracted verbatim from\n// src/v3/dispatcher.rs and src/v5/dispatcher.rs (how the limiter classifies inbound items)\n"
+    d = {}
+    for ver in ("v3", "v5"):
+        with open(os.path.join(REPO, "src", ver, "dispatcher.rs")) as f:
+            txt = f.read()
+        item = extract_item(txt, r"^impl crate::inflight::SizedRequest for Decoded ", f"impl SizedRequest for Decoded ({ver})")
+        out += f"pub(crate) mod sized_{ver} {{\n    use crate::{ver}::codec::Decoded;\n" + "\n".join("    " + l if l.strip() else l for l in item.split("\n")) + "\n}\n"
+        d[f"{ver}/dispatcher.rs impl SizedRequest"] = hashlib.sha256(item.encode()).hexdigest()
+    with open(os.path.join(stage, "gen_sized.rs"), "w") as f:
+        f.write(out)
+    return d
+
+
 def gen_v5_pubgate(stage):
     with open(os.path.join(REPO, "src", "v5", "dispatcher.rs")) as f:
         txt = f.read()
@@ -424,6 +439,7 @@ def weave_kani():
     extracted = gen_io_state(stage)
     extracted_gate = gen_v5_pubgate(stage)
     extracted_cgate = gen_v5_client_pubgate(stage)
+    extracted_sized = gen_sized(stage)
     # the real LocalWaker source (std-only file) from the registry version pinned by Cargo.lock
     ver = None
     with open(os.path.join(REPO, "Cargo.lock")) as f:
@@ -474,7 +490,7 @@ def weave_kani():
                            if os.path.exists(os.path.join(REPO, "src", rel))},
         "appended_lines": appended,
         "substitutions": substituted,
-        "extracted_items_sha256": {"io.rs": extracted, "v5/dispatcher.rs": extracted_gate, "v5/client/dispatcher.rs": extracted_cgate},
+        "extracted_items_sha256": {"io.rs": extracted, "v5/dispatcher.rs": extracted_gate, "v5/client/dispatcher.rs": extracted_cgate, "SizedRequest": extracted_sized},
     }
     return meta
 
